@@ -869,7 +869,8 @@ def bigexp_pow_fails(ctx, case):
     want = np.asarray(m[0], dtype=float)
     if not np.all(np.isfinite(want)):
         return None
-    if z.shape != want.shape or not np.allclose(z, want, rtol=1e-9, atol=1e-300):
+    # (relative to the size of the polynomial: a coefficient that cancels exactly in rational arithmetic is 1e-16 in floating point)
+    if z.shape != want.shape or not np.allclose(z, want, rtol=1e-9, atol=1e-12 * max(1.0, float(np.max(np.abs(want))))):
         return 'mismatch-bigexp-pow: x ** %d differs from the square-and-multiply model, max diff %s' % (r, maxdiff(z, want))
     return None
 
